@@ -439,7 +439,13 @@ def organize(
         pass
     log.debug('organize() - setting queue')
     dawgie.pl.schedule.que = sorted(
-        filter(lambda j: j.get('todo') or j.get('doing'), jobs.values()),
+        # entries already on the queue stay (a unit that is executing may have had
+        # its target purged: its reply still has to find the job); a node is newly
+        # queued only with work
+        filter(
+            lambda j: j in que or j.get('todo') or j.get('doing'),
+            jobs.values(),
+        ),
         key=lambda i: i.get('level'),
     )
     return
